@@ -59,8 +59,9 @@ def main(argv):
             import numpy as _np
             import pyvalidate
             pyvalidate.validate(ctx, groups, _np.random.default_rng(seed + 7919))
-            if "Vec" in groups:
-                pyvalidate.validate_vec(ctx, _np.random.default_rng(seed + 104729))
+            vgroups = [g for g in groups if g.startswith("Vec")]
+            if vgroups:
+                pyvalidate.validate_vec(ctx, _np.random.default_rng(seed + 104729), vgroups=vgroups)
         code = ctx.finish()
     except InfraError as e:
         print(f"INFRA-ERROR {prop}: {e}")
